@@ -21,8 +21,7 @@ from vlib.core import Machinery
 RULE = ("Flow C: `tlc -simulate` on Library.tla (one action per public function over a workspace of shared accessors, messages, "
         "table, mask, latter map, filter, matrix; Frame is checked on the design) generates call sequences; each is executed on real "
         "shared objects with bit-level digests of every workspace object before and after every call and a digest of the result; "
-        "every distinct call signature is also executed once in a newly started interpreter on pickled equal arguments (quick: a "
-        "seeded share of them, at least 150); Trace_Library consumes the logs event by event: Frame (nothing but arc removal's own "
+        "every distinct call signature is also executed once in a newly started interpreter on pickled equal arguments; Trace_Library consumes the logs event by event: Frame (nothing but arc removal's own "
         "arguments changes) and Deterministic (result equals the memo entry of the signature, verbose not being part of it). "
         "Distinct non-trivial = distinct call signatures executed.")
 
@@ -256,7 +255,7 @@ def fresh_result(path):
 
 def run(ctx):
     depth = 14
-    nh = 80 if ctx.quick else 400
+    nh = 60 if ctx.quick else 400
     ctx.tlc("Library", "Library_mc.cfg", workers=16, timeout=600, heap="8g") if not ctx.quick else None
     r = ctx.tlc("Library", "Library_sim.cfg", workers=1, timeout=600, simulate="num=%d" % (nh * 2), depth=depth + 1, seed=ctx.seed + 11)
     seen, hists = set(), []
@@ -282,9 +281,8 @@ def run(ctx):
     numpy.random.set_state(rng_state)
     # fresh-interpreter references
     sigs = sorted(pickles)
-    if ctx.quick:
-        rng.shuffle(sigs)
-        sigs = sigs[:max(150, len(sigs) // 3)]
+    # every distinct signature gets its fresh-interpreter reference (a call that follows an in-place edit of one of its
+    # arguments has a signature of its own, so stale per-object caches are compared with a process that never saw the object)
     paths = {}
     for i, s in enumerate(sigs):
         p = os.path.join(ctx.workdir, "fresh_%d.pkl" % i)
